@@ -20,3 +20,5 @@ def rules(ctx):
     S.c20_r5_shrink(ctx)
     S.c01_r1_commit_protocol(ctx)
     S.c20_r6_read_only(ctx)
+    S.c01_r2_grow(ctx)
+    S.c08_r4_refused_after_failure(ctx)
